@@ -1,10 +1,15 @@
 #!/bin/bash
-# usage: tools/seedcheck.sh <property-id> <patch.diff> [tier]
-# Applies a seeded change to /repo, runs the check, and always reverts.
+# usage: tools/seedcheck.sh <property-id> <patch.diff (absolute path)> [tier]
+# Applies a seeded change to /repo, runs the check, and always reverts. The
+# evidence file of the property (which must describe the unchanged tree) is put
+# back afterwards.
 ID=$1; PATCH=$2; TIER=${3:-quick}
 cd /repo || exit 3
 if ! git apply --check "$PATCH" 2>/dev/null; then echo "SEEDCHECK: patch does not apply: $PATCH"; exit 3; fi
+EV=/verif/evidence/$ID.json
+SAVE=$(mktemp /var/tmp/verif-evidence-XXXXXX)
+[ -f "$EV" ] && cp "$EV" "$SAVE"
 git apply "$PATCH"
-trap 'git -C /repo checkout -- . ' EXIT
+trap 'git -C /repo checkout -- . ; [ -s "$SAVE" ] && cp "$SAVE" "$EV"; rm -f "$SAVE"' EXIT
 cd /verif && timeout 3000 bin/verif check $ID --tier $TIER 2>&1 | grep -E "^(VIOLATION|OK|BROKEN|INCONCLUSIVE|ENCODER|harness)" | cut -c1-400
 echo "SEEDCHECK exit=${PIPESTATUS[0]}"
